@@ -20,14 +20,18 @@ def run(ctx):
     l1.run_k1(ctx)
     from props import asm_hmac, jobwrite
     jobwrite.run(ctx)                   # every .asm routine with an IMB_JOB* parameter: descriptor bytes other than status unchanged on every path
-    from props import asm_cmac, asm_sm3
-    asm_cmac.run_family(ctx, PROP)
-    asm_sm3.run_family(ctx, PROP)
-    from props import asm_cbcsc
-    asm_cbcsc.run_family(ctx, PROP)
-    from props import asm_ccm
-    asm_ccm.run_family(ctx, PROP)
-    asm_hmac.run_family(ctx, PROP)      # descriptor write set / status of the HMAC managers (machine code)
+    if not ctx.quick():
+        # the CMAC/XCBC, SM3, x16 CBC and CCM scenario families take ~5 min together: thorough tier only for C14 (the quick command has to
+        # stay well below 15 min on a slower machine); their status / write-set obligations are by-products of runs C02/C03/C04 make anyway
+        from props import asm_cmac, asm_sm3, asm_cbcsc, asm_ccm
+        asm_cmac.run_family(ctx, PROP)
+        asm_sm3.run_family(ctx, PROP)
+        asm_cbcsc.run_family(ctx, PROP)
+        asm_ccm.run_family(ctx, PROP)
+    else:
+        ctx.outside.append('status / descriptor write set of the HMAC, CMAC, XCBC, SM3, x16 CBC-encrypt and CCM managers in this tier (thorough tier; the machine-code sweep of every routine with a job parameter runs in both)')
+    if not ctx.quick():
+        asm_hmac.run_family(ctx, PROP)      # descriptor write set / status of the HMAC managers (machine code)
     ctx.samples.append('for ALL int e: imb_get_strerror(e) != NULL; IMB_ERR_MIN<e<IMB_ERR_MAX => a library message, listed once in imb_errno_types[]')
     ctx.samples.append('any ring state, any stale errno: SUBMIT_JOB leaves errno 0 on success / the validator code on rejection; every caller-owned field of every ring job unchanged')
     ctx.outside.append('descriptor writes performed inside assembly managers other than the AES-CBC-encrypt (C04) and SSE HMAC ones')
